@@ -666,11 +666,32 @@ func ruleForLabels(w *World, r *RuleResult) {
 }
 
 // mangledField: a []string field of the machine that is filled with Sprintf("__for...") results.
+// makesMangledList: a function of the module that fills a list with mangled
+// names and returns it.
+func makesMangledList(w *World, g *ssa.Function) bool {
+	if g == nil || len(g.Blocks) == 0 || g.Pkg != w.SLib {
+		return false
+	}
+	gps, _ := w.Paths(g)
+	for _, gp := range gps {
+		for _, e := range gp.Events {
+			if e.Kind == "store" && e.LV.Op == "elem" && stripConv(e.LV.A[0]).Op == "makeslice" && isMangled(gp, e.Val) {
+				return true
+			}
+		}
+	}
+	return false
+}
+
 func mangledField(w *World, m *machine, field string) bool {
+	makesMangled := func(g *ssa.Function) bool { return makesMangledList(w, g) }
 	for _, s := range m.states {
 		ps, _ := w.Paths(s)
 		for _, p := range ps {
 			for _, e := range p.Events {
+				if e.Kind == "store" && e.LV.Op == "sel" && e.LV.S == field && stripConv(e.Val).Op == "call" && makesMangled(w.funcByKey(stripConv(e.Val).S)) {
+					return true
+				}
 				if e.Kind == "store" && e.LV.Op == "elem" && isMangled(p, e.Val) {
 					b := stripConv(e.LV.A[0])
 					if b.Op == "sel" && b.S == field {
